@@ -11,6 +11,7 @@ import (
 	"github.com/akrylysov/pogreb"
 	"github.com/akrylysov/pogreb/fs"
 	"github.com/akrylysov/pogreb/zzverif/explore"
+	"github.com/akrylysov/pogreb/zzverif/simfs"
 	"github.com/akrylysov/pogreb/zzverif/vsync"
 )
 
@@ -427,6 +428,141 @@ func seqWord(c *explore.Ctx, kind string, word string, scratch string, n int) *e
 	return nil
 }
 
+// ---------------------------------------------------------------------------------------------
+// Part 3: a competing Open against a running Close, at file-system-call granularity (simfs, scheduler)
+
+func c13OpenCloseScenarios() []*explore.Scenario {
+	var scs []*explore.Scenario
+	for i, pre := range []explore.ThreadProg{{}, {op(explore.Put, "a")}, {op(explore.Delete, "a"), op(explore.Put, "n")}} {
+		t1 := append(append(explore.ThreadProg{}, pre...), op(explore.Close, ""))
+		scs = append(scs, &explore.Scenario{Name: fmt.Sprintf("OC-%d", i), Base: "S2", Cfg: "ROLL", Threads: []explore.ThreadProg{t1, {op(explore.Open2, "")}}, Bound: -1, FSYield: true})
+	}
+	scs = append(scs, &explore.Scenario{Name: "OC-CH", Base: "CH", Cfg: "BIGC", Threads: []explore.ThreadProg{{op(explore.Put, "x"), op(explore.Close, "")}, {op(explore.Open2, "")}}, Bound: -1, FSYield: true})
+	scs = append(scs, &explore.Scenario{Name: "OC-2", Base: "S2", Cfg: "ROLL", Threads: []explore.ThreadProg{{op(explore.Put, "a"), op(explore.Close, "")}, {op(explore.Open2, "")}, {op(explore.Open2, "")}}, Bound: 2, FSYield: true})
+	return scs
+}
+
+func c13OpenCloseCheck(base *explore.Base) func(r *explore.ConcRun) (string, string) {
+	return func(r *explore.ConcRun) (string, string) {
+		var cl *explore.Event
+		model := base.Model.Clone()
+		evs := append([]explore.Event(nil), r.Events...)
+		sort.Slice(evs, func(i, j int) bool { return evs[i].Call < evs[j].Call })
+		for i, e := range evs {
+			if e.Thread != 1 {
+				continue
+			}
+			switch e.Op.Kind {
+			case explore.Put:
+				if e.Err == "" {
+					model[string(base.Keys[e.Op.Key])] = e.Val
+				}
+			case explore.Delete:
+				if e.Err == "" {
+					delete(model, string(base.Keys[e.Op.Key]))
+				}
+			case explore.Close:
+				cl = &evs[i]
+			}
+		}
+		if cl == nil || cl.Err != "" {
+			return "close-error", fmt.Sprintf("Close failed: %v", cl)
+		}
+		for _, e := range evs {
+			if e.Op.Kind != explore.Open2 {
+				continue
+			}
+			if !e.Found {
+				if !strings.Contains(e.Err, "locked") {
+					return "wrong-error", "a competing Open failed with " + e.Err + ", want a 'locked' error"
+				}
+				continue
+			}
+			// the second handle was open (and read) at e.PairT[0]: that must be after Close returned
+			if len(e.PairT) > 0 && e.PairT[0] < cl.Ret && e.Call < cl.Ret {
+				return "two-handles", "a competing Open succeeded before the owner's Close had returned: two open handles of one directory"
+			}
+			if e.Val != "" {
+				return "second-handle", "second handle: " + e.Val
+			}
+			got := explore.Model{}
+			for _, p := range e.Pairs {
+				got[p[0]] = p[1]
+			}
+			if e.N != len(model) || !model.Equal(got) {
+				return "second-handle-contents", fmt.Sprintf("a competing Open that succeeded shows Count=%d and contents that differ from what the owner closed: %s", e.N, model.Diff(got, r.Sess.KeyName))
+			}
+		}
+		r.ReopenAfter()
+		if r.ReopenMsg != "" {
+			return "reopen", r.ReopenMsg
+		}
+		if !model.Equal(r.Reopened) {
+			return "final", "after the scenario the directory does not hold the closed contents: " + model.Diff(r.Reopened, r.Sess.KeyName)
+		}
+		return "", ""
+	}
+}
+
+// Part 4: an Open that fails (injected I/O error at each of its mutating file-system calls) on an unclean
+// directory must not lose the unclean-shutdown marker: the next Open (a new process) recovers.
+func c13FailedOpen(c *explore.Ctx) {
+	for _, bc := range [][2]string{{"S2", "ROLL"}, {"CH", "BIGC"}, {"T", "BIGC"}} {
+		base, err := explore.GetBase(bc[0], cfgByName(bc[1]), 0)
+		if err != nil {
+			c.HarnessError("%v", err)
+		}
+		explore.PinSeed(0)
+		unclean := base.Image.Clone()
+		unclean.SetBytes(explore.DBPath+"/lock", nil)
+		for n := 1; n < 400; n++ {
+			if !c.Mine() {
+				continue
+			}
+			if c.Expired() || c.NViolations() > 0 {
+				return
+			}
+			img := unclean.Clone()
+			img.FailAt = n
+			db, err := pogreb.Open(explore.DBPath, base.Cfg.Options(img))
+			c.Add("executions", 1)
+			c.Add("failed_open_probes", 1)
+			c.Add("transitions", 2)
+			if err == nil {
+				_ = db.Close()
+				if img.FailAt > 0 && !injectedHit(img, n) {
+					break // the recovering Open makes fewer than n mutating calls: done
+				}
+				continue
+			}
+			// the failed process is gone; a new one opens the directory as the failed Open left it
+			next := img.Clone()
+			next.Record = true
+			rec := explore.RecoverImage(next, base.Cfg, base.Keys, base.Probe, 0, explore.RecoverOpts{KeepLog: true})
+			c.Distinct("outcome", explore.Hash64("fo", bc[0], next.Hash()))
+			msg := ""
+			switch {
+			case rec.OpenErr != "":
+				msg = "the next Open failed: " + rec.OpenErr
+			case !explore.RanRecovery(rec.OpenLog):
+				msg = "the next Open did not run recovery although the last session never completed Close"
+			case rec.Internal != "":
+				msg = "the recovered database is inconsistent: " + rec.Internal
+			case !base.Model.Equal(rec.Contents):
+				msg = "the next Open shows wrong contents: " + base.Model.Diff(rec.Contents, func(k string) string { return fmt.Sprintf("%x", k) })
+			}
+			if msg != "" {
+				c.Violation(explore.Violation{Key: fmt.Sprintf("failed-open base=%s cfg=%s fault@%d", bc[0], bc[1], n),
+					What: fmt.Sprintf("unclean directory %s/%s; an Open fails with an injected I/O error at its mutating file-system call #%d (%v); then: %s", bc[0], bc[1], n, err, msg), Size: n,
+					Replay: map[string]interface{}{"kind": "failopen13", "base": bc[0], "cfg": bc[1], "fault_at": n, "observed": msg}})
+				return
+			}
+		}
+	}
+}
+
+func injectedHit(img *simfs.FS, n int) bool { return img.Mutations() >= n }
+
 func runC13(c *explore.Ctx) {
 	scratch, err := os.MkdirTemp("/dev/shm", "pogverif-c13-")
 	if err != nil {
@@ -467,6 +603,10 @@ func runC13(c *explore.Ctx) {
 		}
 	}
 	rec("O")
+	c13FailedOpen(c)
+	if c.Expired() || c.NViolations() > 0 {
+		return
+	}
 	// part 1: protocol interleavings
 	var mine []lockScenario
 	for _, sc := range lockScenarios(c.Thorough()) {
@@ -490,6 +630,10 @@ func runC13(c *explore.Ctx) {
 			c.Violation(*v)
 		}
 	}
+	// part 3: competing Open against a running Close (scheduler on simfs, file-system calls are scheduling points)
+	runScenarioSet(c, c13OpenCloseScenarios(), func(base *explore.Base, sc *explore.Scenario) func(r *explore.ConcRun) (string, string) {
+		return c13OpenCloseCheck(base)
+	})
 }
 
 func init() {
